@@ -8,9 +8,9 @@ and unregisters in another one before it unlocks; when the last consumer unregis
 mutex and count are dropped from the maps.  `RLock(ids...)` registers all ids in one critical section and
 then read-locks them one after the other in the given order; `Lock(id)` takes one entity.
 
-Here the entity's `StarvingMutex` is the abstract reader/writer lock that `C17_exclusion` and
-`C17_no_lost_wakeup` (Hive/Props/C17.lean, proved on the monitor protocol of Hive/Model/SyncMutex.lean)
-justify: a write lock is granted only when nobody holds the entity, a read lock only when no writer holds
+Here the entity's `StarvingMutex` is the abstract reader/writer lock that `C17_monitor_refines_rwlock`
+and `C17_no_lost_wakeup_quiescent` (Hive/Props/C17.lean, proved on the monitor protocol of
+Hive/Model/SyncMutex.lean) justify: a write lock is granted only when nobody holds the entity, a read lock only when no writer holds
 it (`step`), and a goroutine that stays blocked at quiescence is blocked by a current holder
 (`blocked`, the pessimistic reading used by the deadlock theorem: a reader queued behind a parked
 writer also waits for the readers that block that writer).  The critical sections of `d.Mutex` contain
